@@ -535,7 +535,7 @@ class World(object):
         return out
 
     # round trips through the baseline I/O configuration --------------------
-    def op_roundtrip(self, h, dh, fmt, wopts, io_w, io_r):
+    def op_roundtrip(self, h, dh, fmt, wopts, io_w, io_r, between=None):
         """serialize(format=fmt, **wopts) then deserialize; new document gets handle h.
 
         io_w in {"str","text","bin"}; io_r in {"content","bytes","text","bin"}.
@@ -560,6 +560,9 @@ class World(object):
             wout.info["phase"] = "write"
             return wout
         text = wout.result
+        for env_op in between or ():
+            # hidden-input perturbations between writing and reading
+            getattr(self, "op_" + env_op[0])(*env_op[1:])
 
         def read():
             if io_r == "content":
